@@ -776,6 +776,36 @@ static void test_cert (
 }
 #endif
 
+/* a non-basic variable sits at a bound it has: the statuses of a loaded basis,
+ * or those the previous solve left, may not fit the bounds as they are now
+ * (a bound was made infinite since, a bounded column was handed in as free) */
+static void fix_nonbasic_status (
+	EGLPNUM_TYPENAME_lpinfo * lp)
+{
+	int j, col;
+
+	for (j = 0; j < lp->nnbasic; j++)
+	{
+		col = lp->nbaz[j];
+		switch (lp->vtype[col])
+		{
+		case VFREE:
+			lp->vstat[col] = STAT_ZERO;
+			break;
+		case VUPPER:
+			lp->vstat[col] = STAT_UPPER;
+			break;
+		case VLOWER:
+			lp->vstat[col] = STAT_LOWER;
+			break;
+		default:										/* both bounds are finite */
+			if (lp->vstat[col] == STAT_ZERO)
+				lp->vstat[col] = STAT_LOWER;
+			break;
+		}
+	}
+}
+
 static void save_paraminfo (
 	EGLPNUM_TYPENAME_price_info * pinf,
 	EGLPNUM_TYPENAME_iter_info * it)
@@ -931,6 +961,7 @@ int EGLPNUM_TYPENAME_ILLsimplex (
 		CHECKRVALG (rval, CLEANUP);
 		EGLPNUM_TYPENAME_ILLprice_free_pricing_info (pinf);
 	}
+	fix_nonbasic_status (lp);
 
 	if (lp->fbasisid != lp->basisid)
 	{
